@@ -51,25 +51,37 @@ SetupStep(k) ==
       [] P.op = "parts"   -> SetupFromParts(k, setups[P.seed].seed, setups[P.key].ssk,
                                             setups[P.fake].fsk, P.mode, FALSE)
 
+\* An entry of RegPlan may carry adv: the registration RESPONSE is altered on its way to the client
+\* ("reflect": the client's own blinded element comes back; "evalgbg" / "evalbad": the evaluation is
+\* replaced by an adversary-made valid / invalid element; "spkother": the static key of setup
+\* P.other is substituted -- a registration man-in-the-middle).
+AdvOf(P) == IF "adv" \in DOMAIN P THEN P.adv ELSE "none"
+GbgOf(field, cls) == CHOOSE g \in garbage : g[2] = field /\ g[3] = cls
 RegStep(i, sub) ==
     LET P == RegPlan[i] IN
     CASE sub = 0 -> CRegStart(i, P.pw1, 100 + 2 * i)
       [] sub = 1 -> SRegStart(P.s, regs[i].blinded, P.cid)
-      [] sub = 2 -> LET r == SRegStartRes(P.s, regs[i].blinded, P.cid) IN
+      [] sub = 2 -> LET r0 == SRegStartRes(P.s, regs[i].blinded, P.cid)
+                        r == [eval |-> CASE AdvOf(P) = "reflect" -> regs[i].blinded
+                                         [] AdvOf(P) = "evalgbg" -> GbgOf("eval", "valid")
+                                         [] AdvOf(P) = "evalbad" -> GbgOf("eval", "invalid")
+                                         [] OTHER -> r0.eval,
+                              spk  |-> IF AdvOf(P) = "spkother" THEN SPk(P.other) ELSE r0.spk] IN
                     \E idu \in (IF P.idu = Tok("any") THEN RegIdus ELSE {P.idu}),
                        ids \in (IF P.ids = Tok("any") THEN RegIdss ELSE {P.ids}),
                        ksf \in (IF P.ksf = 99 THEN RegKsfs ELSE {P.ksf}) :
                     CRegFinish(i, P.pw2, r.eval, r.spk,
                                ResolveId(idu, NoneV, r.spk), ResolveId(ids, NoneV, r.spk),
                                ksf, FALSE, 101 + 2 * i)
-      [] sub = 3 -> SRegFinish(i, RecOfReg(i))
+      [] sub = 3 -> IF RegOk(i) THEN SRegFinish(i, RecOfReg(i))
+                    ELSE UNCHANGED vars          \* the client refused: nothing to upload
 
 Prefix ==
     /\ phase <= PrefixLen
     /\ IF phase <= NS THEN SetupStep(phase)
-       ELSE IF phase <= NS + 4 * NR
-            THEN RegStep(((phase - NS - 1) \div 4) + 1, (phase - NS - 1) % 4)
-            ELSE Mut(MutPlan[phase - NS - 4 * NR][1], MutPlan[phase - NS - 4 * NR][2])
+       ELSE IF phase <= NS + NM
+            THEN Mut(MutPlan[phase - NS][1], MutPlan[phase - NS][2])
+            ELSE RegStep(((phase - NS - NM - 1) \div 4) + 1, (phase - NS - NM - 1) % 4)
     /\ phase' = phase + 1
     /\ UNCHANGED nfree
 
@@ -144,6 +156,10 @@ Free ==
 
 MCNext == Prefix \/ Free
 MCSpec == MCInit /\ [][MCNext]_mcvars
+\* with fairness, for the liveness property of MC_Live
+MCSpecFair == MCSpec /\ WF_mcvars(MCNext)
+\* extra (beyond the 19 properties): an honest session whose messages keep being delivered completes
+HonestCompletes == <>(\E j \in SrvIds : sv[j].st = "done" /\ sv[j].fres = "Ok")
 
 Bound == nfree <= MaxFree
 
